@@ -201,6 +201,7 @@ def random_conv(rng: PlanRng, meta):
     op["wu"] = rng.choice(list(WL_UNITS), p=[5, 2, 1, 1])
     op["prefix"] = rng.choice(list(PREFIX))
     op["ru"] = rng.choice([None, None, True, False])
+    op["qroute"] = rng.choice(["mul", "ureg.Quantity", "pint.Quantity"], p=[2, 1, 1])
     op["lin"] = rng.coin(0.25) and shape == "s1"
     if shape in ("s1", "s2") and rng.coin(0.2):
         # integer-typed input: the integer payload of the same rank, cast at execution time
@@ -287,10 +288,20 @@ def do_conv(op, pool, x=None, strip=False):
     fn = getattr(_dreye, op["c"])
     x = cast(pool[op["x"]], op.get("xdt")) if x is None else x
     wl = cast(pool[op["wl"]], op.get("wdt"))
+    def quantity(v, unit):
+        # the three ways an application builds a quantity of the shared registry
+        route = op.get("qroute", "mul")
+        if route == "ureg.Quantity":
+            return _ureg.Quantity(v, unit)          # wraps an ndarray without copying
+        if route == "pint.Quantity":
+            import pint
+            return pint.Quantity(v, unit)           # application registry == dreye's ureg
+        return v * _ureg(unit)
+
     if op["xu"] is not None:
-        x = x * _ureg(op["xu"])
+        x = quantity(x, op["xu"])
     if op["wu"] is not None:
-        wl = wl * _ureg(op["wu"])
+        wl = quantity(wl, op["wu"])
     r = fn(x, wl, return_units=op["ru"], prefix=op["prefix"], axis=op["axis"])
     return r
 
@@ -547,7 +558,7 @@ def candidates(plan):
             yield p
         if "c" in op:
             for key, simple in (("xu", None), ("wu", None), ("prefix", None), ("ru", None),
-                                ("lin", False), ("xdt", None), ("wdt", None)):
+                                ("lin", False), ("xdt", None), ("wdt", None), ("qroute", "mul")):
                 if op.get(key) not in (simple,):
                     p = dict(plan)
                     p["ops"] = ops[:i] + [dict(op, **{key: simple})] + ops[i + 1:]
